@@ -11,8 +11,10 @@ EXTENDS Rational, Sequences, FiniteSets, TLC, Json
 
 CONSTANTS M, Entries, Meas, Alphas      \* alpha^2 as index: 1 -> 1, 2 -> 1/4
 
-VARIABLES W, b, al
-vars == <<W, b, al>>
+VARIABLES W, b, al,
+          prev     \* 0: first use of the Tikhonov matrix; i > 0: the caller's Tikhonov array was handed to an earlier call with alpha index i
+                   \* (an alpha scan re-using one array): the minimiser does not depend on it, and the array stays what it was
+vars == <<W, b, al, prev>>
 Rows == 1..M
 A2(i) == IF i = 1 THEN <<1, 1>> ELSE <<1, 4>>
 
@@ -58,7 +60,7 @@ MinNormSolvesNormalEquations ==
     /\ RSub(RAdd(RMul(R(G(1, 1)), MinNorm[1]), RMul(R(G(1, 2)), MinNorm[2])), R(H(1))) = Zero
     /\ RSub(RAdd(RMul(R(G(1, 2)), MinNorm[1]), RMul(R(G(2, 2)), MinNorm[2])), R(H(2))) = Zero
 
-Init == W \in [Rows -> [1..2 -> Entries]] /\ b \in [Rows -> Meas] /\ al \in Alphas
+Init == W \in [Rows -> [1..2 -> Entries]] /\ b \in [Rows -> Meas] /\ al \in Alphas /\ prev \in {0} \cup Alphas
 Next == UNCHANGED vars
 Spec == Init /\ [][Next]_vars
 
@@ -69,5 +71,5 @@ KKTUnique == \A x, y \in Cands : (KKT(x) /\ KKT(y)) => x = y
 NNLSNotBelowUnconstrained == RLeq(Obj(Unc), Obj(NNLS))
 NNLSEqualsUncWhenFeasible == (Unc[1][1] >= 0 /\ Unc[2][1] >= 0) => NNLS = Unc
 
-EmitCase == PrintT(ToJson([minnorm |-> MinNorm, scale_exps |-> ScaleExps, rank |-> IF Det0 # 0 THEN 2 ELSE IF Tr0 # 0 THEN 1 ELSE 0, W |-> W, b |-> b, alpha2 |-> A2(al), lstsq |-> Unc, nnls |-> NNLS, obj_lstsq |-> Obj(Unc), obj_nnls |-> Obj(NNLS)]))
+EmitCase == PrintT(ToJson([prev_alpha2 |-> IF prev = 0 THEN <<0, 1>> ELSE A2(prev), minnorm |-> MinNorm, scale_exps |-> ScaleExps, rank |-> IF Det0 # 0 THEN 2 ELSE IF Tr0 # 0 THEN 1 ELSE 0, W |-> W, b |-> b, alpha2 |-> A2(al), lstsq |-> Unc, nnls |-> NNLS, obj_lstsq |-> Obj(Unc), obj_nnls |-> Obj(NNLS)]))
 =============================================================================
